@@ -392,7 +392,10 @@ fn create_locales_enum(
     } else {
         quote!()
     };
-    let ld = icu_locid_transform::LocaleDirectionality::new();
+    // the default expander only knows the likely script of the most common languages ("yi" or "ug" would be `Auto`).
+    let ld = icu_locid_transform::LocaleDirectionality::new_with_expander(
+        icu_locid_transform::LocaleExpander::new_extended(),
+    );
 
     let locids = locales
         .iter()
